@@ -510,13 +510,29 @@ def catalog_obligations(rep):
             entry.clear()
             entry.update(before)
     # renderer: dialect instance created per renderer
-    fd = repo.find_function('mindsdb_sql.render.sqlalchemy_render', 'SqlalchemyRender.__init__')
-    s = ast.unparse(fd)
-    if 'self.dialect = dialect(paramstyle=' in s:
-        rep.proved('C20.dialect', 'frames', 'self.dialect is a new instance created in __init__; later writes go to self.dialect.*', function='mindsdb_sql.render.sqlalchemy_render:SqlalchemyRender.__init__',
+    # decided on the real code: two renderers built for the same dialect name hold two distinct dialect instances (no class, no shared object)
+    from mindsdb_sql.render.sqlalchemy_render import SqlalchemyRender
+    shared = []
+    n_ok = 0
+    for dn_ in ('mysql', 'postgresql', 'sqlite', 'mssql', 'oracle'):
+        try:
+            r1_, r2_ = SqlalchemyRender(dn_), SqlalchemyRender(dn_)
+        except Exception:
+            continue
+        d1_, d2_ = getattr(r1_, 'dialect', None), getattr(r2_, 'dialect', None)
+        if d1_ is None or isinstance(d1_, type) or d1_ is d2_:
+            shared.append(dn_)
+        else:
+            n_ok += 1
+    if shared:
+        rep.failed('C20.dialect', 'frames', f'two SqlalchemyRender objects for {shared[0]!r} share one dialect object (or hold the dialect class): what one renderer sets on it is seen by the other',
+                   function='mindsdb_sql.render.sqlalchemy_render:SqlalchemyRender.__init__', clause='the renderer mutates only the dialect instance it created',
+                   replay={'input': f'SqlalchemyRender({shared[0]!r}) twice', 'fires': True, 'observed': 'same dialect object', 'expected': 'a dialect instance per renderer'})
+    elif n_ok:
+        rep.proved('C20.dialect', 'frames', f'every renderer holds its own dialect instance ({n_ok} dialect names, two renderers each)', function='mindsdb_sql.render.sqlalchemy_render:SqlalchemyRender.__init__',
                    clause='the renderer mutates only the dialect instance it created')
     else:
-        rep.failed('C20.dialect', 'frames', 'SqlalchemyRender no longer instantiates its own dialect object', function='mindsdb_sql.render.sqlalchemy_render:SqlalchemyRender.__init__')
+        rep.undecided('C20.dialect', 'frames', 'no renderer could be constructed', function='mindsdb_sql.render.sqlalchemy_render:SqlalchemyRender.__init__')
 
 
 def replay_catalog():
